@@ -145,6 +145,32 @@ def task_words(pos, hi, spname, part, nparts):
     return acc.result()
 
 
+NONPRINT = ["\x00", "\x7f", "\x85", "\xa0", "\u200b", "\u200e", "\U000e0001", "\n"]
+SPECIAL = ["%", "?", "#", "/", ":", "@", "&", "=", "+", ";", "[", "a"]
+
+
+def task_pristine(pos, part, nparts):
+    """Non-printable x delimiter mixes, each evaluated in a process that has done nothing else before (a result that depends on
+    what was rendered earlier in the process would hide behind the shared workers of the main sweep)."""
+    from vlib import pristine
+    acc = Acc(ID, impl.backend)
+    words = [a + b for a in NONPRINT for b in SPECIAL] + [b + a for a in NONPRINT for b in SPECIAL]
+    words = words[part::nparts]
+    res = pristine.run(impl.scratch, impl.backend, "checks.C18", "human", [(pos, 0, w) for w in words])
+    out = acc.result()
+    for r in res:
+        out["evals"] += r["evals"]
+        out["nontrivial"] += r["nontrivial"]
+        out["nviol"] += r["nviol"]
+        out["viols"].extend(r["viols"])
+        for k, v in r["known"].items():
+            out["known"].setdefault(k, v)
+    out["states"] = len(res)
+    out["counters"]["pristine_process_cases"] = len(res)
+    out["samples"] = [{"pristine": True, "position": pos, "word": words[0] if words else ""}]
+    return out
+
+
 def plan(ctx):
     quick = ctx.tier == "quick"
     spaces = [("nF1", 1), ("nX2", 1)] + ([("nK3", 2)] if quick else [("nF2", 4), ("nX3", 24)])
@@ -157,5 +183,9 @@ def plan(ctx):
                         continue
                     for part in range(n):
                         tasks.append(("checks.C18", "task_words", (pos, hi, sp, part, n), b, "h"))
-    ctx.notes["bounds"] = {"positions": POSITIONS, "hosts": [h[0] for h in HOSTS], "word_spaces": [s for s, _ in spaces], "alphabet_sizes": sweep.SIZES}
+    for b in BACKENDS:
+        for pos in POSITIONS[:7]:
+            for part in range(2):
+                tasks.append(("checks.C18", "task_pristine", (pos, part, 2), b, "p"))
+    ctx.notes["bounds"] = {"positions": POSITIONS, "pristine_mixes": "8 non-printable x 12 special characters, both orders, per position, each in a fresh forked process", "hosts": [h[0] for h in HOSTS], "word_spaces": [s for s, _ in spaces], "alphabet_sizes": sweep.SIZES}
     return tasks
